@@ -354,7 +354,8 @@ def runAlternatives (M : Matcher) (cfg : Cfg) (s : AState) (inp : List UInt8) (p
     let s1 := beginMatch M cfg s0 inp len rule prefix_
     if s1.halted then (s1, .halt) else
     -- the default rule's action (ECHO) is not user code: it takes no script
-    let (s2, script) := if rule == cfg.numRules then (s1, []) else s1.nextScript
+    -- (a rule whose '|' action chains into the default rule runs the default action)
+    let (s2, script) := if cfg.actionOf.getD (rule - 1) rule == cfg.numRules then (s1, []) else s1.nextScript
     let (s3, e) := runAction M cfg { s2 with moreFlag := false } script
     match e with
     | .rejected => runAlternatives M cfg s3 inp prefix_ bufBefore linenoBefore rest
